@@ -12,17 +12,23 @@ META = {
             '(1..6 history entries, empty layers interleaved, 1-3 package-list files with up to 4 packages, add/rewrite/delete/re-create/no-op; history full, missing or short), '
             'scanning them with ScanContainer and a line-oriented fake extractor and comparing Index, DiffID and Command of every package; the oracle is the brute-force origin computed from the case.',
     'note': 'Trusted: Lean kernel; axioms propext/Quot.sound/Classical.choice at most; the Go harness, go-containerregistry image construction and the line protocol. '
-            'Assumed: one extractor per file and one location per package (the cache key omits the extractor); filesystem.Run does not fail (an error breaks the loop and attributes to layer 0 — '
-            'theorem C05_run_error_falls_to_layer0); views follow the per-file keep/write/delete semantics (that is C04).',
+            'Assumed: one extractor per file and one location per package (the cache key omits the extractor); filesystem.Run inside the trace fails only through a cancelled context (modelled as a cancellation point: the package then gets no LayerDetails — '
+            'theorem C05_origin_or_unset); views follow the per-file keep/write/symlink/delete semantics (that is C04); a symlinked location points to a list that no later layer touches.',
 }
 P = 'Scalibr.Trace.'
-THEOREMS = [P + t for t in ('C05_origin', 'C05_origin_spec', 'C05_cache_transparent', 'C05_populate', 'C05_origin_is_write',
-                            'C05_empty_layers_inert', 'C05_alignment', 'C05_details', 'C05_run_error_falls_to_layer0', 'originSpec_iff')]
+THEOREMS = [P + t for t in ('C05_origin_or_unset', 'C05_origin', 'C05_origin_spec', 'C05_cache_transparent', 'C05_populate',
+                            'C05_populate_complete', 'C05_origin_is_write', 'C05_empty_layers_inert', 'C05_alignment', 'C05_details',
+                            'C05_details_no_history', 'originSpec_iff')]
 
 
 def _layers(case):
     t = case.split(' ')
-    return t[1], int(t[2]), ([] if t[3] == '-' else t[3].split(','))
+    return t[1], int(t[2]), ([] if t[-1] == '-' else t[-1].split(','))
+
+
+def _cancel(case):
+    t = case.split(' ')
+    return len(t) == 5 and t[3] != '-'
 
 
 def _expected_meta(case):
@@ -47,14 +53,14 @@ def run(ctx):
     ctx.trusted = ['Lean 4.33.0 kernel', 'axioms: propext, Quot.sound, Classical.choice at most (see theorems.*.axioms)',
                    'harness/cmd/c05gen (go-containerregistry images with history, Scanner.ScanContainer, fake extractor) + lean/Drivers/C05.lean line protocol',
                    'Lean compiler for the driver executable']
-    ctx.assumptions = ['per file, a chain layer keeps, writes or deletes the file; the image-up-to-layer views follow that (C04 is the property about views)',
+    ctx.assumptions = ['per file, a chain layer keeps, writes, deletes the file or replaces it by a symlink to another list (whose target no later layer touches); the image-up-to-layer views follow that (C04 is the property about views)',
                        'one extractor per file, one location per package: the cache key (location, layer index) then determines the extraction result',
-                       'filesystem.Run returns no error during the trace (no cancellation, ErrorOnFSErrors off); extraction is a function of the file content',
+                       'filesystem.Run inside the trace fails only through the context (ErrorOnFSErrors and MaxInodes do not reach it): cancellation is modelled as "after k re-extractions"; extraction is a function of the file content; an Extract error does not drop the packages it returned',
                        'package identity = (purl, Locations[0])']
-    ctx.rule = ('case = history of 1..6 entries (E empty layer | layer with one op per file: k keep, d whiteout, w<digits> rewrite with these packages), 1..3 files, history mode H/N/S; '
-                'thorough adds every history of <=4 entries over one file with packages {1,2} (8+64+512+4096 cases). non-trivial = more than two chain layers and a non-empty final inventory; '
+    ctx.rule = ('case = history of 1..6 entries (E empty layer | layer with one op per file: k keep, d whiteout, w<digits> rewrite with these packages, s<digits> replace the location by a symlink to such a list), 1..3 files, history mode H/N/S, optionally the context cancelled after k re-extractions of the trace; '
+                'thorough adds every history of <=4 entries over one file with packages {1,2} (10 ops per entry; histories of 3-4 entries also cancelled after the first re-extraction). non-trivial = more than two chain layers and a non-empty final inventory; '
                 'distinct = distinct case lines. oracle: every reported package must carry Index = least L with the package in every view L..last (computed by the Lean driver from the case), '
-                'the DiffID of that chain layer\'s v1 layer and its CreatedBy')
+                'the DiffID of that chain layer\'s v1 layer and its CreatedBy; a package without LayerDetails is accepted only when the context was cancelled')
     ok, _ = ctx.lean_build(['Scalibr.Properties.C05', 'drv_c05'])
     proofs_ok = ctx.audit(['Scalibr.Properties.C05'], THEOREMS)
     if ctx.tier == 'thorough':
@@ -70,13 +76,21 @@ def run(ctx):
         if 'pk' not in fi or 'spec' not in fm:
             return None
         got = [] if fi['pk'] == '-' else fi['pk'].split(',')
-        want = [] if fm['spec'] == '-' else fm['spec'].split(',')
-        if sorted(t.split(':')[0] for t in got) != sorted(want):
-            return 'reported (package @ layer index) %s, the least layer from which the package is in every later view gives %s' % (fi['pk'], fm['spec'])
+        want = dict(t.split('@') for t in ([] if fm['spec'] == '-' else fm['spec'].split(',')))
+        if sorted(t.split('@')[0] for t in got) != sorted(want):
+            return 'reported packages %s, the final view holds %s' % (fi['pk'], fm['spec'])
         meta = _expected_meta(case)
         for t in got:
-            head, _, rest = t.partition(':')
-            idx = head.split('@')[1]
+            name, _, where = t.partition('@')
+            if where == 'nil':
+                # no LayerDetails: only a cancelled context may leave a package unattributed
+                if not _cancel(case):
+                    return 'package %s has no LayerDetails although the context was never cancelled' % name
+                continue
+            idx, _, rest = where.partition(':')
+            if idx != want[name]:
+                return ('package %s is attributed to layer %s; the least layer from which it is in every later view is %s '
+                        '(reported %s, expected %s)' % (name, idx, want[name], fi['pk'], fm['spec']))
             if not idx.isdigit() or int(idx) >= len(meta):
                 return 'package %s carries no valid layer index' % t
             ordn, _, cmd = rest.partition(':')
@@ -88,7 +102,8 @@ def run(ctx):
     def classify(case, fi, fm):
         mode, nf, ls = _layers(case)
         npk = 0 if fm.get('pk', '-') == '-' else fm['pk'].count(',') + 1
-        return 'mode=%s files=%d entries=%d empty=%d pkgs=%s' % (mode, nf, len(ls), sum(1 for l in ls if l == 'E'), npk if npk < 4 else '4+')
+        return 'mode=%s files=%d entries=%d empty=%d pkgs=%s%s%s' % (mode, nf, len(ls), sum(1 for l in ls if l == 'E'), npk if npk < 4 else '4+',
+                                                            ' symlink' if any('/s' in l for l in ls) else '', ' cancelled' if _cancel(case) else '')
 
     lib.standard_stream(ctx, gen='c05gen', driver='drv_c05', gen_args=['-seed', str(ctx.seed), '-n', str(n), '-tier', ctx.tier],
                         compare_keys=['_', 'n', 'pk'], nontrivial=nontrivial, oracle=oracle, classify=classify)
